@@ -534,6 +534,9 @@ func vfParse(data []byte) ([]vfEntry, error) {
 		return out, nil
 	}
 	s := string(data)
+	if vfParseDropCR {
+		s = strings.ReplaceAll(s, "\r\n", "\n")
+	}
 	hadNL := strings.HasSuffix(s, "\n")
 	lines := strings.Split(s, "\n")
 	if hadNL {
@@ -575,6 +578,9 @@ func vfParse(data []byte) ([]vfEntry, error) {
 
 // vfParseNoFinalNL: set by cases whose pre-existing file deliberately lacks the final newline (an editor trimmed it)
 var vfParseNoFinalNL bool
+
+// vfParseDropCR: set by cases whose pre-existing file has CR LF line ends (checked out that way); a CR before a LF is not content
+var vfParseDropCR bool
 
 func vfClip(s string) string {
 	if len(s) > 80 {
